@@ -37,7 +37,7 @@ def budget(tier):
     ex = int(os.environ.get("VERIF_EXAMPLES", "0"))
     if tier == "quick":
         return dict(shards=16, examples=ex or 40, shrink_calls=20, shard_timeout=1500, time_budget=110)
-    return dict(shards=16, examples=ex or 250, shrink_calls=150, shard_timeout=6 * 3600, time_budget=3 * 3600)
+    return dict(shards=16, examples=ex or 3000, shrink_calls=150, shard_timeout=6 * 3600, time_budget=1500)
 
 
 @st.composite
